@@ -5,7 +5,7 @@
 (* variables non-negative by the type of the output).                         *)
 (* Correspondence: the columns of the standard form are                       *)
 (*   - images of original variables: the variable itself, or the pair         *)
-(*     "$p"name / "$m"name for a free (Real) variable, x = p - m              *)
+(*     "$p|"name / "$m|"name for a free (Real) variable, x = p - m            *)
 (*   - slack / surplus columns: every other column; each must occur in        *)
 (*     exactly one row, so its value is determined by that row                *)
 (* For EVERY grid assignment y of the image columns (both halves of a split   *)
@@ -32,7 +32,7 @@ IsFree(v) == v.kind = "real"
 \* image columns of original variable i: <<pos, neg>> (neg = 0 when not split)
 Image(ev, i) ==
    LET v == ev.vars[i] IN
-   IF IsFree(v) THEN <<StdIdx(ev, "$p" \o v.name), StdIdx(ev, "$m" \o v.name)>>
+   IF IsFree(v) THEN <<StdIdx(ev, "$p|" \o v.name), StdIdx(ev, "$m|" \o v.name)>>
    ELSE <<StdIdx(ev, v.name), {}>>
 ImageCols(ev) == UNION {Image(ev, i)[1] \cup Image(ev, i)[2] : i \in 1..NO(ev)}
 SlackCols(ev) == (1..NS(ev)) \ ImageCols(ev)
